@@ -4,14 +4,14 @@ import Tally.Model.Registry
 
 `Legacy.step` is `Registry.step` except for
 * the removal (`removeWithRLock` in the pinned code): it deletes the key whatever scope it now points to
-  (`Legacy.deleteByKey`), and
+  (`Legacy.deleteByKey`; in `Subscope` both removals, of the raw and of the sanitized key), and
 * the report pass: it reads the scope's closed flag AFTER the report (`if s.closed.Load()` followed
   `s.report(...)` in the pinned code), so the flag read at `passIter` is ignored and read again at
   `passAfter`.
 -/
 namespace Tally.Registry.Legacy
 
-def step (s : State) : Ev → Option State
+def step (san : Nat → Nat) (s : State) : Ev → Option State
   | .step t choice =>
     match pcOf s t with
     | .passAfter v k sid _ =>
@@ -21,15 +21,17 @@ def step (s : State) : Ev → Option State
         if x.closed then some (setPc (delReader s t) t (.passUnlocked v k sid)) else some (setPc s t (.passIter v))
     | .passUnlocked v k sid =>
       if !s.readers.isEmpty then none else some (setPc (deleteByKey s k) t (.passRelock v k sid))
-    | .obtUnlocked i sid =>
-      if !s.readers.isEmpty then none else some (setPc (deleteByKey s i) t (.obtRelock i sid))
-    | _ => Registry.step s (.step t choice)
-  | e => Registry.step s e
+    | .obtUnlocked r sid =>
+      if !s.readers.isEmpty then none else some (setPc (deleteByKey s r) t (.obtRelock r sid))
+    | .obtUnlocked2 r sid =>
+      if !s.readers.isEmpty then none else some (setPc (deleteByKey s (san r)) t (.obtRelock2 r sid))
+    | _ => Registry.step san s (.step t choice)
+  | e => Registry.step san s e
 
-def run (s : State) : List Ev → Option State
+def run (san : Nat → Nat) (s : State) : List Ev → Option State
   | [] => some s
-  | e :: es => match step s e with
+  | e :: es => match step san s e with
     | none => none
-    | some s' => run s' es
+    | some s' => run san s' es
 
 end Tally.Registry.Legacy
